@@ -17,21 +17,39 @@ fn op(u: &mut Unstructured) -> arbitrary::Result<Op> {
 }
 
 fuzz_target!(|data: &[u8]| {
-    let mut u = Unstructured::new(data);
-    let seg = u8::arbitrary(&mut u).unwrap_or(0);
-    let mut ops = Vec::new();
-    while !u.is_empty() && ops.len() < 40 {
-        match op(&mut u) {
-            Ok(o) => ops.push(o),
-            Err(_) => break,
+    guarded(std::panic::AssertUnwindSafe(|| {
+        let mut u = Unstructured::new(data);
+        let seg = u8::arbitrary(&mut u).unwrap_or(0);
+        let mut ops = Vec::new();
+        while !u.is_empty() && ops.len() < 40 {
+            match op(&mut u) {
+                Ok(o) => ops.push(o),
+                Err(_) => break,
+            }
         }
-    }
-    if ops.is_empty() {
-        return;
-    }
-    let case = Case { seg, ops };
-    let out = exec(&case);
-    if let Some(f) = out.failure {
-        panic!("C05 violation {} :: {} :: case {}", f.signature, f.message, serde_json::to_string(&case).unwrap());
-    }
+        if ops.is_empty() {
+            return;
+        }
+        let case = Case { seg, ops };
+        let out = exec(&case);
+        if let Some(f) = out.failure {
+            panic!("C05 violation {} :: {} :: case {}", f.signature, f.message, serde_json::to_string(&case).unwrap());
+        }
+    }));
 });
+
+/// libfuzzer-sys installs a panic hook that aborts the process, which would turn panics that
+/// the code under test catches itself (e.g. around the Arrow IPC decoder) into crashes.
+/// Replace it by a recording hook; anything that *escapes* the target body aborts explicitly.
+fn guarded(f: impl FnOnce() + std::panic::UnwindSafe) {
+    static INIT: std::sync::Once = std::sync::Once::new();
+    INIT.call_once(|| {
+        std::panic::set_hook(Box::new(|info| {
+            eprintln!("panicked: {}", info);
+        }));
+    });
+    if std::panic::catch_unwind(f).is_err() {
+        eprintln!("VIOLATION: a panic escaped the receiver / the oracle failed");
+        std::process::abort();
+    }
+}
